@@ -6,6 +6,9 @@
 (*      (cancel-on-error) and pushes the batch into the unbuffered model channel;*)
 (*      it keeps receiving until the syntax channel is closed (Drain = TRUE);    *)
 (*   W3 journal.FromModelStream : receives batches, adds them to the builder.    *)
+(* A file's task creates the tasks of its includes one by one while it is being   *)
+(* parsed (Spawn), so an included file may finish before the file that includes  *)
+(* it (ParseDone).                                                               *)
 (* Termination rests on channel closure, which TLC checks for every include      *)
 (* tree on NFiles files and every placement of up to MaxFail syntax/model        *)
 (* errors.  Drain = FALSE is the "stop reading on the first model error"         *)
@@ -19,8 +22,9 @@ Trees == {t \in [Files -> SUBSET Files] :
             /\ \A f \in Files : \A g \in t[f] : g > f                        \* acyclic
             /\ \A g \in Files \ {1} : Cardinality({f \in Files : g \in t[f]}) = 1}   \* every file included exactly once
 
-Init == /\ inc \in Trees
-        /\ bad \in {b \in [Files -> {"ok", "syntax", "model"}] : Cardinality({f \in Files : b[f] # "ok"}) <= MaxFail}
+InitWith(incv, badv) ==
+        /\ inc = incv
+        /\ bad = badv
         /\ task = [f \in Files |-> IF f = 1 THEN "parsing" ELSE "none"]
         /\ gerr = "none" /\ gcancel = FALSE
         /\ sch = 0                       \* file offered on the syntax channel (0 = none)
@@ -28,18 +32,25 @@ Init == /\ inc \in Trees
         /\ conv = [f \in Files |-> "none"]
         /\ ierr = "none" /\ icancel = FALSE
         /\ mch = 0 /\ added = {} /\ result = "pending"
+Init == \E incv \in Trees : \E badv \in {b \in [Files -> {"ok", "syntax", "model"}] : Cardinality({f \in Files : b[f] # "ok"}) <= MaxFail} :
+          InitWith(incv, badv)
 
 \* ---- W1: errgroup tasks
-\* a file is read and parsed; the callback spawns a task per include directive as it is met;
-\* a syntax error may come after some includes were already spawned
-Parse(f) ==
+\* a file is read and parsed; the callback creates a task per include directive as it is met (errgroup.Go)
+Spawn(f, g) ==
+  /\ task[f] = "parsing" /\ g \in inc[f] /\ task[g] = "none"
+  /\ task' = [task EXCEPT ![g] = "parsing"]
+  /\ UNCHANGED <<inc, bad, gerr, gcancel, sch, w2, conv, ierr, icancel, mch, w3, added, w1, result>>
+\* the file's own parse ends: a syntax error (or a missing file) may come after some includes were already
+\* spawned; a sound file has spawned all of them
+ParseDone(f) ==
   /\ task[f] = "parsing"
   /\ IF bad[f] = "syntax"
-     THEN \E seen \in SUBSET inc[f] :
-            /\ task' = [g \in Files |-> IF g = f THEN "done" ELSE IF g \in seen THEN "parsing" ELSE task[g]]
-            /\ gerr' = IF gerr = "none" THEN "real" ELSE gerr
-            /\ gcancel' = TRUE
-     ELSE /\ task' = [g \in Files |-> IF g = f THEN "pushing" ELSE IF g \in inc[f] THEN "parsing" ELSE task[g]]
+     THEN /\ task' = [task EXCEPT ![f] = "done"]
+          /\ gerr' = IF gerr = "none" THEN "real" ELSE gerr
+          /\ gcancel' = TRUE
+     ELSE /\ \A g \in inc[f] : task[g] # "none"
+          /\ task' = [task EXCEPT ![f] = "pushing"]
           /\ UNCHANGED <<gerr, gcancel>>
   /\ UNCHANGED <<inc, bad, sch, w2, conv, ierr, icancel, mch, w3, added, w1, result>>
 \* cpr.Push(ctx, resCh, res): offer on the channel or see the group context cancelled
@@ -98,8 +109,11 @@ PoolWait == /\ result = "pending" /\ w1 # "running" /\ w2 \notin {"pop", "wait"}
             /\ UNCHANGED <<inc, bad, task, gerr, gcancel, sch, w2, conv, ierr, icancel, mch, w3, added, w1>>
 Finished == result # "pending" /\ UNCHANGED vars
 
-Next == \/ \E f \in Files : Parse(f) \/ Offer(f) \/ PushCancelled(f) \/ Convert(f) \/ ConvOffer(f) \/ ConvCancelled(f)
-        \/ W1Done \/ W2Recv \/ W2Closed \/ W2Done \/ W3Recv \/ W3Closed \/ PoolWait \/ Finished
+\* the steps the hooks do not log
+Silent == \/ \E f \in Files : Offer(f) \/ PushCancelled(f) \/ ConvOffer(f) \/ ConvCancelled(f)
+          \/ W1Done \/ W2Recv \/ W2Closed \/ W2Done \/ W3Closed \/ PoolWait
+Next == \/ \E f \in Files : ParseDone(f) \/ Convert(f) \/ \E g \in Files : Spawn(f, g)
+        \/ W3Recv \/ Silent \/ Finished
 Spec == Init /\ [][Next]_vars /\ WF_vars(Next)
 
 \* ---------------------------------------------------------------- properties
